@@ -161,6 +161,9 @@ def formatter_level(check, P):
                         continue        # the rejected call changed the style to an open one as a whole: consistent
                     if ts and (tag in ts[0].removed) and MUST_REMOVE <= ts[0].removed:
                         check.ok("R1", f"style {sym!r} after a rejected set_comment_symbols({bad!r}): still sanitised")
+                    elif not ts:
+                        # the text is not there as itself (an unmodelled operation stands in its place): the main run judges that
+                        check.undecided("R1", f"style {sym!r} after a rejected set_comment_symbols({bad!r}): the comment text is {sv!r}, which the analysis cannot follow")
                     else:
                         check.violation("R1", f"style:{sym}:after-rejected-reconfiguration",
                                         f"comment style {sym!r}: after set_comment_symbols({bad!r}) was rejected, comment() still closes with {closing!r} but no longer removes it "
@@ -284,8 +287,11 @@ def tracer_level(check, P):
             mentioned = any(it[0] == "ok" for it in items) or any(it[0] != "ok" for it in items)
             if not mentioned:
                 # the text did not reach any statement at all: it must not silently become something else either
-                raw = [s_ for s_ in delivered if "arg.comment" in repr(s_.parts)]
-                if raw:
+                raw = [s_ for s_ in delivered if any("arg.comment" in repr(p_) for p_ in s_.parts if not isinstance(p_, Fmt))]
+                inside = [s_ for s_ in delivered if any("arg.comment" in repr(p_) for p_ in s_.parts if isinstance(p_, Fmt))]
+                if inside and not raw:
+                    items.append(("undecided", "R2", f"trace.{what}(comment=<str>): the comment argument is {inside[0].describe()[:100]}: an operation on the caller's text that the analysis does not model"))
+                elif raw:
                     items.append(("viol", "R2", f"trace.{what}:text-outside-comment:arg.comment",
                                   f"trace.{what}(comment=<str>): the caller's text reaches a delivered statement outside the comment template: {delivered[0].describe()[:120]}",
                                   [decisions_text(path, 8)]))
